@@ -303,8 +303,14 @@ impl RefWorld {
     if self.nodes[id].done {
       return;
     }
+    let t = ev.is_terminal();
     if let Some((p, slot)) = self.nodes[id].parent {
       self.deliver(p, slot, ev);
+    }
+    if t {
+      // whatever this source instance sends after its own terminal is ignored
+      // (its parent may have re-used the input slot for another input by now)
+      self.nodes[id].done = true;
     }
   }
 
